@@ -210,15 +210,19 @@ Section Spec.
     else if pairwise_related (map class_of vs) then Unspec else MustNot.
 
   (* per instance Cls[X]: the values matched against the class's type variable bound to X *)
+  (* every value matched against the class's type variable - as the whole position or nested in it -
+     must conform to X; where all do: positions that are T as a whole are independent of each other,
+     values nested in containers additionally fall under the per-call rule (identical classes: Must,
+     otherwise no oracle) *)
   Definition inst_rule (x : ann) (t : tvar) (ps : list mpos) : verdict :=
-    if existsb (fun p => mp_bare p && is_mustnot (conforms ctx x (mp_val p))) ps then MustNot
-    else match all3 (map (fun p => conforms ctx x (mp_val p)) ps) with
-         | Must =>
-             if negb (forallb (fun p => tv_admits t (mp_val p)) ps) then Unspec      (* X outside T's own constraints *)
-             else if forallb mp_bare ps then Must
-             else if all_same (map (fun p => class_of (mp_val p)) ps) then Must else Unspec
-         | _ => Unspec        (* nested positions: the statement speaks about T-annotated parameters / results *)
-         end.
+    match all3 (map (fun p => conforms ctx x (mp_val p)) ps) with
+    | MustNot => MustNot
+    | Must =>
+        if negb (forallb (fun p => tv_admits t (mp_val p)) ps) then Unspec      (* X outside T's own constraints *)
+        else if forallb mp_bare ps then Must
+        else if all_same (map (fun p => class_of (mp_val p)) ps) then Must else Unspec
+    | Unspec => Unspec
+    end.
 
   Fixpoint nodup_ids (l : list nat) : list nat :=
     match l with [] => [] | x :: l' => x :: filter (fun y => negb (Nat.eqb x y)) (nodup_ids l') end.
